@@ -318,6 +318,32 @@ pub fn run(tier: &str) -> i32 {
     rep.states += tcs.len() as u64 * 3;
     rep.transitions += tcs.len() as u64 * 3;
 
+    // ---- numbers beyond the 64-bit integer range: every loader reads them as the nearest float (never a wrapped integer)
+    // (integers that do not fit 64 bits at all are outside the property's domain: serde_yaml rejects them, libyaml's loader reads a float)
+    let big = ["9223372036854775808", "18446744073709551615", "9223372036854775807.0", "1e19", "12345678901234567890"];
+    for raw in big {
+        let val = m(vec![("k1", f(raw.parse::<f64>().unwrap()))]);
+        let rules = "rule t0 { k1 is_float }\nrule t1 { k1 > 9000000000000000000.0 or k1 < 0.0 }\nrule t2 { k1 !is_int }\nrule dump { this == \"zzz-never-equal\" }\n".to_string();
+        let names = vec!["t0".to_string(), "t1".to_string(), "t2".to_string()];
+        for (layout, text) in [("json-bignum", format!("{{\"k1\":{}}}", raw)), ("flow-bignum", format!("{{k1: {}}}\n", raw)), ("block-bignum", format!("k1: {}\n", raw))] {
+            let mut sub = Acc::new();
+            observe(&val, &text, layout, &rules, &names, &mut sub);
+            for v in sub.viols {
+                // the dumped value is compared numerically below; `value-differs` from the textual comparison is not used here
+                if v.signature.starts_with("value-differs") {
+                    continue;
+                }
+                acc.violate(&format!("big-number:{}", v.signature), v.what, v.replay);
+            }
+            acc.traces += sub.traces;
+            for (k, c) in sub.outcomes {
+                *acc.outcomes.entry(k).or_insert(0) += c;
+            }
+        }
+    }
+    rep.states += big.len() as u64 * 9;
+    rep.transitions += big.len() as u64 * 9;
+
     // ---- rejections: an error exit, never a verdict, never a panic
     let rj = rejected_inputs();
     for (label, text) in &rj {
